@@ -482,6 +482,13 @@ func (en *DefaultEngine) Exec(ctx context.Context, input []byte) (bool, error) {
 		ctx = context.WithValue(ctx, "SessionId", en.cfg.SessionId)
 	}
 
+	if len(input) > 0 {
+		_, err = vm.ValidInput(input)
+		if err != nil {
+			return true, err
+		}
+	}
+
 	cont, err := en.init(ctx, input)
 	if err != nil {
 		return false, err
@@ -503,12 +510,6 @@ func (en *DefaultEngine) Exec(ctx context.Context, input []byte) (bool, error) {
 		}
 	}
 
-	if len(input) > 0 {
-		_, err = vm.ValidInput(input)
-		if err != nil {
-			return true, err
-		}
-	}
 	err = en.st.SetInput(input)
 	if err != nil {
 		return false, err
